@@ -341,7 +341,7 @@ impl Rig for WkRig {
     fn runs(&self, tier: Tier) -> u64 {
         match tier {
             Tier::Quick => 12_000,
-            Tier::Thorough => 400_000,
+            Tier::Thorough => 4_000_000,
         }
     }
     fn gen(&self, rng: &mut Rng, idx: u64, _tier: Tier) -> WkScenario {
